@@ -588,6 +588,26 @@ def conn_parts(ctx):
     return C, send, parse, rbuf, wbuf
 
 
+def conn_attrs(ctx):
+    """(socket attribute, state attribute) of TcpConnection: the attribute .send()/.recv() is called on with the
+    write buffer / a size, and the attribute compared with CONNECTION_STATE members"""
+    P = ctx.P
+    C, send, parse, rbuf, wbuf = conn_parts(ctx)
+    sock = state = None
+    for m in P.methods_of(C):
+        sn = m.self_name
+        for n in ast.walk(m.node):
+            if isinstance(n, ast.Call) and isinstance(n.func, ast.Attribute) and n.func.attr in ('send', 'recv') and P.self_attr(n.func.value, sn) \
+                    and n.args and (P.self_attr(n.args[0], sn) == wbuf or n.func.attr == 'recv'):
+                sock = P.self_attr(n.func.value, sn)
+            if isinstance(n, ast.Compare) and len(n.ops) == 1 and P.self_attr(n.left, sn) and P.const_class_value(n.comparators[0]) \
+                    and P.const_class_value(n.comparators[0])[0] == 'CONNECTION_STATE':
+                state = P.self_attr(n.left, sn)
+    if not sock or not state:
+        raise AnalysisError('socket / state attribute of TcpConnection not found')
+    return sock, state
+
+
 @rule('R-header-agree', 'the length header is packed and unpacked with the same struct format and every literal header size '
                         'in the parser equals its calcsize')
 def r_header_agree(ctx):
@@ -856,7 +876,7 @@ def r_consume_once(ctx):
             ctx.violation('%s:no-delivery-loop' % m.qualname, m.loc(calls[0]), 'buffered frames are not delivered in a loop (merged reads deliver only one message)', instance=inst)
             continue
         lp = loops[-1]
-        cbs = [n for n in mcfg.nodes if n.kind == 'stmt' and any(p is lp for p in n.parents) and any(isinstance(c, ast.Call) and isinstance(c.func, ast.Attribute) and 'essageReceived' in c.func.attr for c in ast.walk(n.ast))]
+        cbs = [n for n in mcfg.nodes if n.kind == 'stmt' and any(p is lp for p in n.parents) and any(isinstance(c, ast.Call) and P.self_attr(c.func, m.self_name) == _msg_callback_attr(P, C) for c in ast.walk(n.ast))]
         checks = [n.id for n in mcfg.nodes if n.kind == 'cond' and any(p is lp for p in n.parents) and 'DISCONNECTED' in unparse(n.ast)]
         head = [n for n in mcfg.nodes if n.ast is lp and n.kind == 'loop'][0]
         if cbs and checks and head.id not in mcfg.reachable_from(cbs[0].id, avoid=checks + [], follow_exc=False) - {cbs[0].id} or (cbs and checks and not _reaches_without(mcfg, cbs[0].id, head.id, checks)):
@@ -864,6 +884,19 @@ def r_consume_once(ctx):
         else:
             ctx.violation('%s:delivery-after-disconnect' % m.qualname, m.loc(lp), 'after a message callback closed the connection the loop keeps parsing the (cleared) buffer', instance=inst)
     ctx.expect_min(4)
+
+
+def _msg_callback_attr(P, C):
+    """the attribute holding the message callback: the one the public setter setOnMessageReceivedCallback assigns"""
+    st = C.methods.get('setOnMessageReceivedCallback')
+    if st is None:
+        raise AnalysisError('TcpConnection.setOnMessageReceivedCallback gone')
+    for n in ast.walk(st.node):
+        if isinstance(n, ast.Assign):
+            a = P.self_attr(n.targets[0], st.self_name)
+            if a:
+                return a
+    raise AnalysisError('setOnMessageReceivedCallback assigns no attribute')
 
 
 def _reaches_without(cfg, start, target, avoid):
@@ -951,7 +984,7 @@ def r_write_fifo(ctx):
             if not isinstance(n, ast.Try):
                 continue
             io = [c for c in ast.walk(ast.Module(body=n.body, type_ignores=[])) if isinstance(c, ast.Call) and isinstance(c.func, ast.Attribute) and c.func.attr in ('send', 'recv')
-                  and 'socket' in unparse(c.func.value)]
+                  and P.self_attr(c.func.value, m.self_name) == conn_attrs(ctx)[0]]
             if not io:
                 continue
             for hd in n.handlers:
@@ -1055,7 +1088,7 @@ def r_disconnect_idempotent(ctx):
     inst = 'disconnect resets state and buffers'
     ctx.tick()
     w = set(a.attr for a in P.accesses(d) if a.kind == 'write')
-    if {rbuf, wbuf} <= w and any('state' in x for x in w):
+    if {rbuf, wbuf} <= w and conn_attrs(ctx)[1] in w:
         ctx.ok(inst, d.loc(), '')
     else:
         ctx.violation('TcpConnection.disconnect:state-not-reset', d.loc(), 'disconnect() does not reset buffers and state', instance=inst)
